@@ -88,7 +88,7 @@ func init() {
 				{Scenario: "c12_finite", Params: mustJSON(FiniteParams{Empty: true}), Bound: b - 1, Shards: 8, Note: "one assigned vBucket has no events at all"},
 				{Scenario: "c12_conc", Params: mustJSON(struct{}{}), Bound: b - 1, Shards: 8, Note: "transient end (node 0) and final end (node 1) concurrently with each other and with events on a third vBucket"},
 			}
-			out = append(out, Instance{Scenario: "c12_afterrebalance", Params: mustJSON(struct{}{}), Bound: 0, Shards: 2, Note: "the stop rule in the sessions after 1..2 real rebalances"})
+			out = append(out, Instance{Scenario: "c12_afterrebalance", Params: mustJSON(struct{}{}), Bound: 1, Shards: 8, Note: "the stop rule in the sessions after 1..2 real rebalances"})
 			out = append(out, Instance{Scenario: "c12_duringopen", Params: mustJSON(struct{}{}), Bound: b - 1, Shards: 4, Note: "a stream ends while Open() still waits for another vBucket (start-up and re-open after a rebalance)"})
 			for f := 1; f <= 5; f++ {
 				out = append(out, Instance{Scenario: "c12_reopenfail", Params: mustJSON(ReopenFailParams{Failures: f}), Bound: 0})
@@ -566,10 +566,14 @@ func init() {
 			c.WaitIdle()
 			nreb := 1 + vrt.Choose(2, true, "rebalances")
 			for i := 0; i < nreb; i++ {
+				// (schedule window: the END(closed) notifications of the rebalance's own close may be processed
+				// before or after the observers stop forwarding ends)
+				vrt.Window(true)
 				e.Stream.Rebalance()
 				vrt.Sleep(3 * time.Second)
 				vrt.Quiesce()
 				c.WaitIdle()
+				vrt.Window(false)
 			}
 			if vrt.Closed(e.StopCh) {
 				vrt.Failf("%d rebalance(s) stopped the client", nreb)
